@@ -564,10 +564,10 @@ def _lin(f, e, depth=0):
     if e[0] == 'call' and callee_name(e) == 'DigitVal' and e[2] and nocast(e[2][0]) == ('p', 'Ch'):
         return {'D': 1, 1: 0}
     if e[0] == 'l' and depth < 4:
-        ds = [m for b, i, ln, m in f.nodes() if (m[0] == 'decl' and m[1] == e[1] and m[2] is not None) or
-              (is_assign(m) and strip(m[2]) == e)]
-        if len(ds) == 1:
-            return _lin(f, ds[0][2] if ds[0][0] == 'decl' else ds[0][3], depth + 1)
+        # (a declaration with initialiser is seen as an assignment by the walkers)
+        ds = [m for b, i, ln, m in f.nodes() if is_assign(m) and strip(m[2]) == e]
+        if len(ds) == 1 and ds[0][1] == '=':
+            return _lin(f, ds[0][3], depth + 1)
         return None
     if e[0] == 'b' and e[1] in ('+', '-'):
         a, b = _lin(f, e[2], depth), _lin(f, e[3], depth)
